@@ -38,6 +38,39 @@ theorem C07_single_message (s : State) (m : Msg) (h : (deliver s [m]).2 ≠ .rej
   obtain ⟨hn, hs⟩ := C07_accept_iff_nonce_eq_seq s [m] h
   exact ⟨hn.1, hs m (List.mem_cons_self)⟩
 
+/-- the signer's sequence as the `i`-th message of the transaction finds it: the stored sequence plus the number of earlier
+    messages of the same signer -/
+theorem noncesFrom_get (f : String → Nat) (ms : List Msg) (h : NoncesFrom f ms) (i : Nat) (m : Msg) (hi : ms[i]? = some m) :
+    m.nonce = f m.sender + countOf m.sender (ms.take i) := by
+  induction ms generalizing f i with
+  | nil => simp at hi
+  | cons x xs ih =>
+    cases i with
+    | zero =>
+      simp only [List.getElem?_cons_zero, Option.some.injEq] at hi
+      subst hi
+      simp [h.1]
+    | succ j =>
+      simp only [List.getElem?_cons_succ] at hi
+      have := ih (bump f x.sender) h.2 j hi
+      rw [this, List.take_succ_cons, countOf_cons]
+      unfold bump
+      by_cases hx : x.sender = m.sender
+      · simp [hx]; omega
+      · have hx' : ¬ m.sender = x.sender := fun e => hx e.symm
+        simp [hx, hx']
+
+/-- **Contracts are created at the address derived from the signer and the transaction's nonce.** In an admitted transaction every
+    contract-creation message is deployed at `CreateAddress(signer, n)` (`deployments`), where `n` — the message's nonce — is the
+    signer's account sequence at the moment that message was admitted: the stored sequence plus the number of earlier messages of
+    that signer in the same transaction. -/
+theorem C07_created_at_signer_and_admission_sequence (s : State) (ms : List Msg) (h : (deliver s ms).2 ≠ .rejected)
+    (i : Nat) (m : Msg) (hi : ms[i]? = some m) (hk : m.kind = .create) :
+    (m.sender, m.nonce) ∈ deployments ms ∧ m.nonce = getSeq s m.sender + countOf m.sender (ms.take i) := by
+  refine ⟨?_, noncesFrom_get (getSeq s) ms (C07_accept_iff_nonce_eq_seq s ms h).1 i m hi⟩
+  unfold deployments
+  refine List.mem_map.mpr ⟨m, List.mem_filter.mpr ⟨List.mem_of_getElem? hi, by simp [hk]⟩, rfl⟩
+
 /-- **Sequences never decrease** across transactions. -/
 theorem C07_seq_monotone (s : State) (ms : List Msg) (a : String) : getSeq s a ≤ getSeq (deliver s ms).1 a := by
   cases hr : (deliver s ms).2 with
@@ -112,6 +145,11 @@ theorem fact_C07_evm_ante_chain : Generated.anteChainEVM =
     ["NewEthSetUpContextDecorator", "NewMempoolGasPriceDecorator", "NewEthValidateBasicDecorator", "NewEthSigVerificationDecorator",
      "NewAnteDecVerifyEthAcc", "CanTransferDecorator", "NewAnteDecEthGasConsume", "NewAnteDecEthIncrementSenderSequence",
      "ante.AnteDecoratorGasWanted", "NewEthEmitEventDecorator"] := by decide
+
+/-- the interpreter runs between the two `SetNonce` calls of `ApplyEvmMsg`: it sees the message's own nonce -/
+theorem fact_C07_nonce_pinned_before_the_interpreter_runs :
+    Generated.applyEvmMsgNonceAndVm =
+      ["SetNonce(msg.From(), msg.Nonce())", "Create", "Call", "SetNonce(msg.From(), msg.Nonce() + 1)"] := by decide +kernel
 
 /-- the one nonce comparison of the EVM ante chain: a message is refused iff its nonce DIFFERS from the signer's sequence as it
     stands after the bumps of the messages before it (what `C07_accept_iff_nonce_eq_seq` is stated over); no other decorator
